@@ -211,7 +211,7 @@ func c03Check(c c03Case) error {
 	if !ok {
 		return fmt.Errorf("unknown method %q", c.Method)
 	}
-	em, err := c03NewEmitter(c, 2048)
+	em, err := c03NewEmitter(c, needOf(c.Prefix)+64)
 	if err != nil {
 		return err
 	}
